@@ -92,6 +92,37 @@ fn replay_preliminary_verify() {
         assert!(proof.verify(&[9u8; 16], avk.to_concatenation_aggregate_verification_key(), &w.params).is_err(), "aggregate accepted for another message");
     }
     unregistered_party_scenario();
+    after_quorum_scenario();
+}
+
+/// clause "EVERY index lies in [0, m) and no index is counted twice", for the slots placed after the point where the quorum is
+/// already reached: slot 0 carries k valid indices, slot 1 carries an out-of-range resp. an already used index
+fn after_quorum_scenario() {
+    let params = Parameters { m: 5, k: 3, phi_f: 1.0 };
+    let mut rng = ChaCha20Rng::from_seed([6u8; 32]);
+    let mut reg = KeyRegistration::initialize();
+    let inits: Vec<Initializer> = (0..3).map(|_| { let i = Initializer::new(params, 1, &mut rng); reg.register_by_entry(&i.clone().try_into().unwrap()).unwrap(); i }).collect();
+    let closed = reg.close_registration(&params).unwrap();
+    let signers: Vec<Signer<D>> = inits.into_iter().map(|i| i.try_create_signer::<D>(&closed).unwrap()).collect();
+    let msg = [4u8; 16];
+    let clerk = Clerk::new_clerk_from_signer(&signers[0]);
+    let avk = clerk.compute_aggregate_verification_key();
+    let mut a = signers[0].create_single_signature(&msg).unwrap();
+    let mut b = signers[1].create_single_signature(&msg).unwrap();
+    a.set_concatenation_signature_indices(&[0, 1]);
+    b.set_concatenation_signature_indices(&[2]);
+    let aggr = clerk.aggregate_signatures_with_type(&[a, b], &msg, AggregateSignatureType::Concatenation, AncillaryProofInput::new(None, AncillaryGenesisData::new())).unwrap().0;
+    aggr.verify(&msg, &avk, &params, None, None).expect("honest aggregate rejected");
+    let AggregateSignature::Concatenation(boxed) = &aggr else { panic!("not a concatenation proof") };
+    assert_eq!(boxed.signatures.len(), 2);
+    let concat_avk = avk.to_concatenation_aggregate_verification_key();
+    for (bad, what) in [(vec![params.m], "an index == m"), (vec![params.m + 7], "an index > m"), (vec![1], "an index already counted for slot 0"), (vec![3, 3], "the same index twice")] {
+        let mut proof = (**boxed).clone();
+        proof.signatures[0].sig.set_concatenation_signature_indices(&[0, 1, 2]);
+        proof.signatures[1].sig.set_concatenation_signature_indices(&bad);
+        assert!(proof.verify(&msg, concat_avk, &params).is_err(),
+                "aggregate ACCEPTED although the slot after the quorum point carries {} (indices {:?}, m = {}, k = {})", what, bad, params.m, params.k);
+    }
 }
 
 /// clause "every (key, stake) pair that contributes indices is committed by the aggregate key": an aggregate whose quorum needs
